@@ -2304,7 +2304,8 @@ def render_get_comparam(repo: Path) -> str:
 # the typed accessors that read a simple parameter through `get_value()` and convert it with `int()` (`viaValue … intRes` of the model);
 # `self.get_comparam` is the function generated above, `get_value` / `int` are the model's `getValue` / `pyInt`
 _ACCESSORS_INT = ["get_can_func_req_id", "get_doip_logical_gateway_address", "get_doip_logical_tester_address",
-                  "get_doip_logical_functional_address", "get_doip_routing_activation_type"]
+                  "get_doip_logical_functional_address", "get_doip_routing_activation_type",
+                  "get_can_baudrate"]          # the last one: `viaGuardedValue` (a complex value is answered with None)
 ACCESSOR_SPEC = PureSpec(
     params={"self": (("Rec", "HierarchyElement"), None), "protocol": (opt(_PROTOARG), "protocol")},
     binders="(refs : List Inst) (protocol : Option ProtoArg)",
@@ -2312,6 +2313,8 @@ ACCESSOR_SPEC = PureSpec(
            ("Inst", "get_value"): ("(← Py.call errOfComparam (getValue {obj}))", [], PYSTR, True),
            (None, "int"): ("(← pyIntE {0})", [PYSTR], INT, True)},
     call_keywords={("HierarchyElement", "get_comparam"): ["cp_short_name", "protocol"]},
+    attrs={("Inst", "value"): ("{}.value", ("Rec", "CVal"))},
+    isinstance={("CVal", "str"): "({}).isStr"},
     open_ns="OdxVerif.Comparam",
     prelude=["/-- exception classes of the hand-written `getValue` (comparaminstance.py): `odxraise()` in strict mode is an OdxError -/",
              "def errOfComparam : Comparam.Err → Py.Err | .odx => .odxError | .foreign => .foreign",
